@@ -241,15 +241,15 @@ PROPS["C15"] = {
 PROPS["C16"] = {
     "level": "exploration",
     "plan": zb_plan(("release", "miri")),
-    "rule": ("EVERY client line sequence of length <= 3 (4 thorough) over 21 line templates (AUTH with none/EXTERNAL/ANONYMOUS/unknown "
-             "mechanism and matching/other/non-numeric/empty/bad-hex identities, DATA variants, BEGIN, CANCEL, ERROR, NEGOTIATE_UNIX_FD, "
+    "rule": ("EVERY client line sequence of length <= 3 (4 thorough) over 24 line templates (AUTH with none/EXTERNAL/ANONYMOUS/unknown "
+             "mechanism and matching/other/non-numeric/non-UTF-8/empty/bad-hex identities, DATA variants, BEGIN, CANCEL, ERROR, NEGOTIATE_UNIX_FD, "
              "unknown, empty, non-UTF-8, lowercase) x {EXTERNAL creds known, EXTERNAL creds unknown, ANONYMOUS x2} with whole/1-byte/"
              "random read splits and partial writes, random sequences to length 12, and malformed framings (LF first, missing NUL, bare "
              "CR/LF, 100 kB line); the real server handshake's outcome and reply lines are compared with the reference SASL server "
              "model (soundness and conformance kept as separate finding classes); distinct = distinct (sequence, config) x schedule"),
     "gates": {"quick": {"evaluations": 30000, "distinct": 20000, "class:lib-authenticated": 200, "class:model-authenticated": 200},
               "thorough": {"evaluations": 700000, "distinct": 400000}},
-    "exhaustive_note": "all sequences up to classes.exhaustive_max_len over the 21 templates x 4 configurations (classes.exhaustive_sequences_total)",
+    "exhaustive_note": "all sequences up to classes.exhaustive_max_len over the 24 templates x 4 configurations (classes.exhaustive_sequences_total)",
     "assumptions": ["AUTH without initial response is answered with DATA (standard SASL challenge) for both mechanisms",
                     "a misplaced BEGIN may be answered with ERROR or a disconnect; malformed hex with ERROR or REJECTED"],
 }
